@@ -355,3 +355,23 @@ META.update({
             "trusted_base": TB_COMMON, "assumptions": ASSUME_COMMON,
             "allowed_axioms": ["ClassicalDedekindReals.sig_forall_dec", "FunctionalExtensionality.functional_extensionality_dep"]},
 })
+
+
+from . import semantic  # noqa: E402
+
+META.update({
+    "C02": {"run": semantic.run_c02, "rule": "PRINT <expr> against an independent IEEE-754 fold (Python, powers taken from the implementation's powf log so only the position of ^ is decided): exhaustive over all 13x13 binary operator pairs x both tree shapes x 4 operand triples, all unary x binary combinations, then random trees (depth 1-4) over 19 operands (numbers incl. -0 and a 20-digit literal, strings, set/unset variables of both kinds), ABS, INT, with minimal and random redundant parentheses, spacing and case; distinct = distinct text; non-trivial = not a bare operand",
+            "trusted_base": TB_COMMON, "assumptions": ASSUME_COMMON},
+    "C07": {"run": semantic.run_c07, "rule": "generated programs (nested FOR, GOSUB, IF/ELSE, READ/DATA, DEF FN, INPUT, RND), each run uninterrupted and 2 (quick) / 4 (thorough) times with 1-4 host breaks at random turn boundaries (running or awaiting input) followed by 0-2 inspection lines (15 forms incl. failing ones and failing FN calls) and CONT; transcripts (Print, Reenter, ExtraIgnored, input requests, final error) compared with Break records removed; plus assignment-at-STOP vs assignment-in-place",
+            "trusted_base": TB_COMMON, "assumptions": ASSUME_COMMON + ["an input request that is re-issued because the host broke in before answering counts once", "inspection lines exclude RND(positive) and reads of arrays that do not exist yet (those change state by the language's own rules)"]},
+    "C08": {"run": semantic.run_c08, "rule": "9 placements of INPUT (alone, after statements, in THEN, in THEN with ELSE, in ELSE, with trailing statements, in a FOR line, in a subroutine) x 7 targets (scalars, string, 1- and 2-dimensional cells, computed subscript) x 15 valid replies x surplus items x 0-2 REENTER rounds, against the same program with the INPUT replaced by the assignment; snapshot compared at suspension",
+            "trusted_base": TB_COMMON, "assumptions": ASSUME_COMMON},
+    "C09": {"run": semantic.run_c09, "rule": "generated programs (30%% never-ending) + 6 adversarial lines, run with tracing on; per call: trace records name one line, at most one Print record, cursor reads <= 14*(tokens of the line + 1) + 24 for programs without user functions; the model's read counter must EQUAL the hook's on every call",
+            "trusted_base": TB_COMMON, "assumptions": ASSUME_COMMON + ["work = token-cursor reads (hook counter); DATA cursor construction, gc and LIST are outside that measure"]},
+    "C12": {"run": semantic.run_c12, "rule": "22 fixed + random lines that tokenize; for each, every (quick: up to 14 sampled) position: insert space / tab, delete a blank, flip letter case, at positions outside string literals, REM text and DATA item text (regions computed from the implementation's own token ranges); plus padded-vs-tight DATA item lists; distinct = distinct line; non-trivial = more than one token",
+            "trusted_base": TB_COMMON, "assumptions": ASSUME_COMMON},
+    "C14": {"run": semantic.run_c14, "rule": "programs of 2-8 lines mixing generated statements, random token-alphabet lines, 25 numeral spellings (leading dot/zeros, 20-400 digits, values around 2^53, subnormal strings, near overflow) and 18 DATA texts (quoted, unquoted, numeric, nan/inf, empty, containing quotes, followed by colon, multi-byte); LIST -> reload -> LIST fixed point, then RUN transcripts of both",
+            "trusted_base": TB_COMMON, "assumptions": ASSUME_COMMON},
+    "C17": {"run": semantic.run_c17, "rule": "generated programs x the four flag configurations (flags by field; 40%: tracing via the TRACE command); per turn: outcome, state, outputs without Trace/Warning records and full snapshot without flags must be identical; trace record sequence vs the line path recovered from the untraced run",
+            "trusted_base": TB_COMMON, "assumptions": ASSUME_COMMON},
+})
